@@ -157,7 +157,10 @@ where
             //expand the map
             self.data.resize_with(x.as_usize() + 1, Default::default);
         }
-        self.data[x.as_usize()].push(y);
+        //(a relation is recorded once, also when an annotation names the same item several times; items are always inserted in sorted order)
+        if self.data[x.as_usize()].last() != Some(&y) {
+            self.data[x.as_usize()].push(y);
+        }
     }
 
     /// Remove a relation from the map
@@ -271,7 +274,10 @@ where
     /// Insert a relation into the map
     pub fn insert(&mut self, x: A, y: B) {
         if self.data.contains_key(&x) {
-            self.data.get_mut(&x).unwrap().push(y);
+            let values = self.data.get_mut(&x).unwrap();
+            if values.last() != Some(&y) {
+                values.push(y);
+            }
         } else {
             self.data.insert(x, vec![y]);
         }
